@@ -1,13 +1,14 @@
 #!/usr/bin/env python3
 """For every confirmed seeded change under /verif/seeded/, applies it to /repo, runs the quick (and
 if missed, the thorough) check of the property it breaks, reverts, and records the outcome in
-meta.json (detected_by).  usage: seed_detect.py [name-pattern] [--also ID,ID]"""
+meta.json (detected_by).  usage: seed_detect.py [name-pattern] [--also ID,ID] [--only-also]  (--only-also keeps the recorded result of the own check and adds the others)"""
 import glob, json, os, re, subprocess, sys
 ROOT = "/verif"
 pat = sys.argv[1] if len(sys.argv) > 1 and not sys.argv[1].startswith("--") else ""
 also = []
 if "--also" in sys.argv:
     also = sys.argv[sys.argv.index("--also") + 1].split(",")
+only_also = "--only-also" in sys.argv
 def run(cmd, env=None):
     e = dict(os.environ); e.update(env or {})
     p = subprocess.run(cmd, shell=True, capture_output=True, text=True, env=e)
@@ -21,8 +22,8 @@ for d in sorted(glob.glob(f"{ROOT}/seeded/*{pat}*/")):
     rc, out = run(f"git -C /repo apply {d}patch.diff")
     if rc:
         print(d, "patch does not apply"); continue
-    res = []
-    for cid in [pid] + also:
+    res = [r for r in meta.get("detected_by", []) if r.get("check") == pid] if only_also else []
+    for cid in (also if only_also else [pid] + also):
         for tier in ["quick", "thorough"]:
             rc, out = run(f"{ROOT}/check {cid} {tier}", {"VERIF_NO_EVIDENCE": "1", "VERIF_REPLAY_DIR": f"{ROOT}/sim/target/seed-replays"})
             if rc == 1:
